@@ -411,5 +411,66 @@ def r07_10(ctx):
     delegate(ctx, c02.r02_2, lambda c: "quoted through _escape" in c)
     delegate(ctx, c12.r12_1, lambda c: "auto.conf" in c)
 
+
+def r07_11(ctx):
+    """R07.11 an empty string is a value: for a string option the header's alias-presence predicate does not depend on the
+    value being non-empty - `#define CONFIG_S ""` is written for the option itself, sdkconfig and CMake list its aliases,
+    so a predicate that requires a non-empty text drops the alias from the header only (fixed defect 5.42)."""
+    import itertools
+    from .common import AcceptCondition
+    repo = ctx.repo
+    f = repo.func(f"{DEP}:DeprecatedOptions.deprecated_header_contents.<locals>._opt_defined")
+    ctx.analysed(f.qual)
+    ac = AcceptCondition(f.node)
+    construct = "DeprecatedOptions.deprecated_header_contents/_opt_defined of a string option does not depend on the value being non-empty"
+
+    def type_atom(a: str):
+        """truth of a type test for a STRING option, None for any other atom"""
+        try:
+            e = ast.parse(a, mode="eval").body
+        except SyntaxError:
+            return None
+        if not (isinstance(e, ast.Compare) and len(e.ops) == 1 and "orig_type" in ast.unparse(e.left)):
+            return None
+        c = e.comparators[0]
+        names = set()
+        for x in ast.walk(c):
+            if isinstance(x, ast.Name):
+                if x.id in TYPES5:
+                    names.add(x.id)
+                else:
+                    v = repo.resolve_const(CORE, x.id)
+                    if v is None:
+                        return None
+                    names |= {y.id for y in ast.walk(v) if isinstance(y, ast.Name) and y.id in TYPES5}
+        hit = "STRING" in names
+        return hit if isinstance(e.ops[0], (ast.Eq, ast.Is, ast.In)) else (not hit)
+
+    fixed, free, empt = {}, [], None
+    for a in ac.atoms:
+        t = type_atom(a)
+        if t is not None:
+            fixed[a] = t
+        elif a.replace('"', "'") in ("opt.str_value == ''", "opt.str_value"):
+            empt = a
+        else:
+            free.append(a)
+    if not fixed:
+        raise AnalysisError("_opt_defined makes no type test")
+    if empt is None:
+        ctx.ok(construct, f.loc(), atoms=ac.atoms)
+        return
+    for vals in itertools.product((False, True), repeat=len(free)):
+        v = dict(fixed)
+        v.update(zip(free, vals))
+        a1, a2 = ac.accept({**v, empt: True}), ac.accept({**v, empt: False})
+        if a1 != a2:
+            ctx.bad(construct, f"for a string option (with {dict(zip(free, vals))}) the alias is defined only when `{empt}` is "
+                    f"{'true' if a1 else 'false'}: a string option whose value is \"\" is written as `#define CONFIG_S \"\"` and its alias is in "
+                    "sdkconfig and CMake, but the header has no #define for the alias", f.loc())
+            return
+    ctx.ok(construct, f.loc(), atoms=ac.atoms)
+
+
 def rules():
-    return [("R07.10", r07_10, 6), ("R07.9", r07_9, 6), ("R07.1", r07_1, 13), ("R07.6", r07_6, 8), ("R07.2", r07_2, 3), ("R07.3", r07_3, 4), ("R07.5", r07_5, 3), ("R07.7", r07_7, 4), ("R07.8", r07_8, 2)]
+    return [("R07.11", r07_11, 1), ("R07.10", r07_10, 6), ("R07.9", r07_9, 6), ("R07.1", r07_1, 13), ("R07.6", r07_6, 8), ("R07.2", r07_2, 3), ("R07.3", r07_3, 4), ("R07.5", r07_5, 3), ("R07.7", r07_7, 4), ("R07.8", r07_8, 2)]
